@@ -40,7 +40,7 @@ let parse_stmt () : stmt =
   | "ci" -> let i = hb (next ()) in let t = hb (next ()) in let n = next_int () in
             CreateIndex (i, t, times n (fun () -> hb (next ())))
   | "di" -> DropIndex (hb (next ()))
-  | "is" -> InsertSelect
+  | "is" -> let t = hb (next ()) in let u = hb (next ()) in InsertSelect (t, u)
   | "ok" -> Other true
   | "bad" -> Other false
   | s -> failwith ("stmt " ^ s)
